@@ -81,7 +81,8 @@ type zzOut struct {
 // contracts: patch creation (records the final document), label-selector
 // matching (arbitrary verdict per selector), the cluster eni-config (arbitrary
 // non-empty vSwitch / security-group lists, or an error) and quantity parsing.
-func zzInstall(out *zzOut, cfgErr bool, nCfgSG int, match map[*metav1.LabelSelector]int) {
+// cfgErr: 0 the cluster eni-config is readable, 1 reading it fails, 2 it does not exist (NotFound)
+func zzInstall(out *zzOut, cfgErr int, nCfgSG int, match map[*metav1.LabelSelector]int) {
 	zz.Override("gomodules.xyz/jsonpatch/v2.CreatePatch", func(a, b []byte) ([]jsonpatch.Operation, error) {
 		out.patched = true
 		p := &corev1.Pod{}
@@ -100,8 +101,11 @@ func zzInstall(out *zzOut, cfgErr bool, nCfgSG int, match map[*metav1.LabelSelec
 		return false, nil
 	})
 	zz.Override("github.com/AliyunContainerService/terway/types/daemon.ConfigFromConfigMap", func(ctx context.Context, c client.Client, nodeName string) (*daemon.Config, error) {
-		if cfgErr {
+		switch cfgErr {
+		case 1:
 			return nil, errZZ
+		case 2:
+			return nil, k8sErr.NewNotFound(schema.GroupResource{Resource: "configmaps"}, "eni-config")
 		}
 		cfg := &daemon.Config{VSwitches: map[string][]string{"z1": {"vsw-cfg"}}}
 		for i := 0; i < nCfgSG; i++ {
@@ -249,7 +253,7 @@ func zzPodWebhook(scopeOnly bool, shard int) {
 	}
 	cfg := &controlplane.Config{IPAMType: zz.OneOf("ipam", "default", "crd"), EnableWebhookInjectResource: zzBoolPtr(zz.Bool("inject")), EnableTrunk: zzBoolPtr(zz.Bool("trunk"))}
 	out := &zzOut{}
-	zzInstall(out, zz.Bool("cfg.fails"), 1, match)
+	zzInstall(out, zz.Fork("cfg.outcome", 3), 1, match)
 	req := &admission.Request{AdmissionRequest: admissionv1.AdmissionRequest{Namespace: "ns", Name: "p0"}}
 	req.Object.Raw = zzRaw(pod)
 
@@ -330,7 +334,7 @@ func ZZ_C18_request_zones() {
 	pod.Annotations[types.PodNetworksRequest] = string(zzRaw(refs))
 	cfg := &controlplane.Config{IPAMType: "default", EnableWebhookInjectResource: zzBoolPtr(false), EnableTrunk: zzBoolPtr(true)}
 	out := &zzOut{}
-	zzInstall(out, false, 1, map[*metav1.LabelSelector]int{})
+	zzInstall(out, 0, 1, map[*metav1.LabelSelector]int{})
 	req := &admission.Request{AdmissionRequest: admissionv1.AdmissionRequest{Namespace: "ns", Name: "p0"}}
 	req.Object.Raw = zzRaw(pod)
 	resp := podWebhook(context.Background(), req, api, cfg)
@@ -455,7 +459,7 @@ func ZZ_C18_fixed_ip_zone() {
 	pod.Annotations[types.PodNetworksRequest] = string(zzRaw([]controlplane.PodNetworkRef{{InterfaceName: "eth0", Network: "pn-0"}}))
 	cfg := &controlplane.Config{IPAMType: "default", EnableWebhookInjectResource: zzBoolPtr(false), EnableTrunk: zzBoolPtr(true)}
 	out := &zzOut{}
-	zzInstall(out, false, 1, map[*metav1.LabelSelector]int{})
+	zzInstall(out, 0, 1, map[*metav1.LabelSelector]int{})
 	req := &admission.Request{AdmissionRequest: admissionv1.AdmissionRequest{Namespace: "ns", Name: "p0"}}
 	req.Object.Raw = zzRaw(pod)
 	resp := podWebhook(context.Background(), req, api, cfg)
